@@ -2,6 +2,7 @@ package props
 
 import (
 	"fmt"
+	"go/token"
 	"strings"
 
 	"golang.org/x/tools/go/ssa"
@@ -44,5 +45,64 @@ func c02EarlierBreakKeys(c *core.Check) {
 	})
 	if n == 0 {
 		r.Unknown("html/layout.findEarlierPageBreak | resume keys", p.Pos(fn.Pos()), "no ResumeStack built")
+	}
+}
+
+// c02FixedHeightOverflow (R15): when the page is full, the children of a fixed-height block that are still to come are
+// forgotten only if they lie below the block's own bottom edge (they overflow a box that ends on this page); a block
+// whose fixed height is larger than the page continues on the next one with them.  The test is made on the box's
+// bottom edge (PositionY + Height): the function that decides it, called with that edge, compares it with the
+// position reached — it does not subtract it from the page bottom (overflowsPage takes a *bottom space*; given an
+// edge it is true as soon as a tall block is fragmented: `<div style="height:200px">` lost its last lines).
+func c02FixedHeightOverflow(c *core.Check) {
+	p := c.Prog
+	r := c.Rule("R15", "a fixed-height block keeps the children that do not fit the page: in html/layout.blockContainerLayout the call, deciding a branch, that receives the box's bottom edge (PositionY + Height) goes to a function that does not read the page bottom", 1)
+	fn := p.Fn("html/layout", "blockContainerLayout")
+	if fn == nil {
+		r.Anchor("html/layout.blockContainerLayout")
+		return
+	}
+	isEdge := func(v ssa.Value) bool {
+		b, ok := v.(*ssa.BinOp)
+		if !ok || b.Op != token.ADD {
+			return false
+		}
+		field := func(v ssa.Value, name string) bool {
+			if call, ok := v.(*ssa.Call); ok && call.Call.IsInvoke() && call.Call.Method.Name() == "V" {
+				v = call.Call.Value
+			}
+			return core.DerivesFrom(v, func(x ssa.Value) bool { return core.IsFieldNamed(x, name) })
+		}
+		return (field(b.X, "PositionY") && field(b.Y, "Height")) || (field(b.Y, "PositionY") && field(b.X, "Height"))
+	}
+	n := 0
+	for _, a := range core.CondAtoms(fn) {
+		call, ok := a.(*ssa.Call)
+		if !ok || call.Call.StaticCallee() == nil {
+			continue
+		}
+		edge := false
+		for _, arg := range call.Call.Args {
+			if isEdge(arg) {
+				edge = true
+			}
+		}
+		if !edge {
+			continue
+		}
+		n++
+		key := fmt.Sprintf("html/layout.blockContainerLayout | test of the box's bottom edge #%d", n)
+		readsPageBottom := false
+		for f := range p.StaticReach([]*ssa.Function{call.Call.StaticCallee()}) {
+			core.Instrs(f, func(in ssa.Instruction) {
+				if fa, ok := in.(*ssa.FieldAddr); ok && core.FieldName(fa) == "pageBottom" {
+					readsPageBottom = true
+				}
+			})
+		}
+		r.Cond(!readsPageBottom, key, p.Pos(call.Pos()), "compared with the position reached by "+call.Call.StaticCallee().Name(), call.Call.StaticCallee().Name()+" subtracts its argument from the page bottom: given the bottom edge of the box it is true for every block taller than what is left of the page, and the children that do not fit are forgotten instead of continuing on the next page")
+	}
+	if n == 0 {
+		r.Unknown("html/layout.blockContainerLayout | test of the box's bottom edge", p.Pos(fn.Pos()), "no call deciding a branch receives PositionY + Height")
 	}
 }
